@@ -16,6 +16,12 @@ Proof. vm_compute. reflexivity. Qed.
 Theorem clients_one_section_per_call : one_section_per_call lock_table_v1 = true /\ one_section_per_call lock_table_v2 = true.
 Proof. vm_compute. split; reflexivity. Qed.
 
+(* the registry of the native interpreter (interpreter/native.go, its own RWMutex): every access to the four registry maps
+   happens while the lock is held, and no method that holds it calls one that takes it (a second read lock dead-locks
+   against a waiting writer) *)
+Theorem native_registry_well_locked : well_locked lock_table_native = true.
+Proof. vm_compute. reflexivity. Qed.
+
 Lemma flat_map_app {A B} (f : A -> list B) l1 l2 : flat_map f (l1 ++ l2) = flat_map f l1 ++ flat_map f l2.
 Proof. induction l1; cbn; auto. now rewrite IHl1, app_assoc. Qed.
 
